@@ -71,6 +71,9 @@ def unit_o2e(kind, key):
         if kind == "frame":
             pats += [tuple(n not in ("authSize", "authorizationArea") for n in names), tuple(n in ("tag", "responseSize", "responseCode") for n in names)]
     pats = list(dict.fromkeys(pats))
+    # present-but-empty lists must stay present (an empty session area is not an absent one)
+    list_fields = [n for n, f in zip(names, fields) if f["type"].startswith("list[")]
+    empties = [("empty-list", lf) for lf in list_fields] if kind != "union" else []
 
     class Sub:
         def __init__(self, name):
@@ -79,9 +82,13 @@ def unit_o2e(kind, key):
         def __repr__(self):
             return f"<sub {self.name}>"
 
-    for pat in pats:
+    for pat in pats + empties:
         def run(ctx, pat=pat):
-            subs = {n: (Sub(n) if present else None) for n, present in zip(names, pat)}
+            if pat and pat[0] == "empty-list":
+                subs = {n: Sub(n) for n in names}
+                subs[pat[1]] = []
+            else:
+                subs = {n: (Sub(n) if present else None) for n, present in zip(names, pat)}
             obj = T(**subs)
             calls = []
             depth = [0]
